@@ -38,10 +38,12 @@ LINKS = {
                      "Rtr.CLink.rtr_check_interval_range_eq", "Rtr.CLink.apply_interval_value_eq", "Rtr.CLink.rtr_check_interval_option_eq",
                      "Rtr.CLink.c_check_interval_option_in_range", "Rtr.CLink.c_eod_intervals_in_range",
                      "Rtr.CLink.rtr_set_interval_mode_eq", "Rtr.CLink.rtr_set_interval_mode_model", "Rtr.CLink.rtr_get_interval_mode_eq",
-                     "Rtr.CLink.tr_recv_all_eq", "Rtr.CLink.tr_recv_all_of_world", "Rtr.CLink.tr_recv_all_timeouts"],
-        "modules_extra": ["RtrProofs.CLinkSync", "RtrProofs.CLinkIo"],
+                     "Rtr.CLink.tr_recv_all_eq", "Rtr.CLink.tr_recv_all_of_world", "Rtr.CLink.tr_recv_all_timeouts",
+                     "Rtr.CLink.rtr_init_eq", "Rtr.CLink.rtr_init_rejects", "Rtr.CLink.rtr_init_accepts", "Rtr.CLink.initInRange_iff_C17",
+                     "Rtr.CLink.rtr_init_ok_iff_model"],
+        "modules_extra": ["RtrProofs.CLinkSync", "RtrProofs.CLinkIo", "RtrProofs.CLinkInit"],
         "functions": ["rtr_wait_for_sync", "rtr_check_interval_range", "apply_interval_value", "rtr_check_interval_option", "rtr_set_interval_mode",
-                      "rtr_get_interval_mode", "tr_recv_all"],
+                      "rtr_get_interval_mode", "tr_recv_all", "rtr_init"],
         "ops": "intervals+io+proto",
     },
     "C04": {
@@ -79,14 +81,15 @@ LINKS = {
     },
     "C05": {
         "modules": ["RtrProofs.CLinkFsm"],
-        "modules_extra": ["RtrProofs.CLinkSync", "RtrProofs.CLinkErr", "RtrProofs.CLinkIo"],
+        "modules_extra": ["RtrProofs.CLinkSync", "RtrProofs.CLinkErr", "RtrProofs.CLinkIo", "RtrProofs.CLinkInit"],
         "theorems": ["Rtr.CLink.rtr_send_serial_query_eq", "Rtr.CLink.rtr_send_reset_query_eq", "Rtr.CLink.serial_query_contents", "Rtr.CLink.reset_query_contents", "Rtr.CLink.rtr_handle_cache_response_pdu_eq", "Rtr.CLink.cache_response_adopts_session", "Rtr.CLink.cache_response_foreign_session", "Rtr.CLink.cache_response_same_session", "Rtr.CLink.rtr_sync_eq", "Rtr.CLink.sync_success_order",
                      "Rtr.CLink.rtr_fsm_step_eq", "Rtr.CLink.fsm_connecting_query_choice", "Rtr.CLink.fsm_connecting_open_fails",
                      "Rtr.CLink.fsm_reset_query", "Rtr.CLink.fsm_no_data_retry", "Rtr.CLink.fsm_no_incr_retry", "Rtr.CLink.stop_purges",
-                     "Rtr.CLink.Err.rtr_send_pdu_eq", "Rtr.CLink.Err.send_pdu_sends", "Rtr.CLink.tr_send_all_eq", "Rtr.CLink.tr_send_all_chunks"],
+                     "Rtr.CLink.Err.rtr_send_pdu_eq", "Rtr.CLink.Err.send_pdu_sends", "Rtr.CLink.tr_send_all_eq", "Rtr.CLink.tr_send_all_chunks",
+                     "Rtr.CLink.rtr_init_eq", "Rtr.CLink.rtr_init_accepts"],
         "functions": ["rtr_send_serial_query", "rtr_send_reset_query", "rtr_handle_cache_response_pdu", "rtr_sync", "rtr_fsm_start", "rtr_stop",
-                      "rtr_send_pdu", "tr_send_all"],
-        "ops": "fsm+proto+io",
+                      "rtr_send_pdu", "tr_send_all", "rtr_init"],
+        "ops": "fsm+proto+io+intervals",
     },
     # the decision "build the new set in shadow tables and swap" is taken from socket fields (request_session_id, last_update, is_resetting)
     # that the handlers of the synchronisation path write: a reload is atomic only if they are written as specified
@@ -199,6 +202,17 @@ def ops_intervals(r, n):
     for sm in (0, 1, 2, 3, 9):
         for opt in (0, 1, 2, 3, 4, -1, 255, 65536, 2 ** 31 - 1):
             ops.append("set_interval_mode %d %d" % (sm, opt))
+    # rtr_init on a socket that held a session: every boundary of the three ranges, with and without a transport
+    rng = {"r": (1, 86400), "e": (600, 172800), "y": (1, 7200)}
+    for f in "rey":
+        lo, hi = rng[f]
+        for x in sorted(set([0, lo - 1 if lo else 0, lo, lo + 1, hi - 1, hi, hi + 1, U32 - 1, 2 ** 31] + e[:6])):
+            v = {"r": 3600, "e": 7200, "y": 600}
+            v[f] = x
+            ops.append("rtr_init %d %d %d %d %d %d %d %d %d" % (r.randrange(U32), r.randrange(U32), r.randrange(U32), r.choice([0, 1, 2, 3]),
+                                                                r.choice([0, 1]), v["r"], v["e"], v["y"], r.choice([0, 1, 2, 3, 7, -1])))
+    for _ in range(max(20, n // 10)):
+        ops.append("rtr_init 3600 7200 600 0 %d %d %d %d %d" % (r.choice([0, 1]), r.choice(e), r.choice(e), r.choice(e), r.choice([0, 1, 2, 3])))
     return ops
 
 
